@@ -50,6 +50,7 @@ class Ctx:
         self.notes: List[str] = []
         self.rules_applied: Dict[str, str] = {}
         self.tables: Dict[str, Any] = {}
+        self.floors: List[Any] = []
 
     # ----------------------------------------------------------- bookkeeping
     def rule(self, rid: str, text: str) -> None:
@@ -86,6 +87,15 @@ class Ctx:
         self.census[name] = self.census.get(name, 0) + n
 
     def floor(self, name: str, minimum: int) -> None:
+        """Deferred: evaluated by check_floors() when the run found no violation (a
+        violation already says what is wrong; a floor guards against vacuous passes)."""
+        self.floors.append((name, minimum))
+
+    def check_floors(self) -> None:
+        for name, minimum in self.floors:
+            self._floor(name, minimum)
+
+    def _floor(self, name: str, minimum: int) -> None:
         got = self.census.get(name, 0)
         if got < minimum:
             raise AnalysisError(
